@@ -99,3 +99,25 @@ Proof.
   split; [vm_compute; reflexivity|]. split; [vm_compute; reflexivity|].
   split; eexists; (split; [reflexivity | vm_compute; reflexivity]).
 Qed.
+
+(** [prog_wf] is not vacuous: single-site variants of the program of the source are rejected — the follow-up column computed
+    from a column that is not assigned (yet), the loop's end column misspelt, a sized draw inside the visit loop, the baseline
+    column computed from the follow-up column (assigned later); the interpreter crashes on the first of them *)
+Definition with_cols (cs : list (string * cexpr)) : gen_prog :=
+  {| gp_ip := gp_ip model_prog; gp_source := gp_source model_prog; gp_cols := cs; gp_loop := gp_loop model_prog |}.
+Definition with_loop (lp : loop_prog) : gen_prog :=
+  {| gp_ip := gp_ip model_prog; gp_source := gp_source model_prog; gp_cols := gp_cols model_prog; gp_loop := lp |}.
+
+Example prog_wf_rejects :
+  prog_wf (with_cols [("AGE_AT_BASELINE", CAdd (CCol "tau") (CDraw call_baseline));
+                      ("AGE_FOLLOW_UP", CAdd (CCol "AGE_BASELINE") (CAbs (CDraw call_followup)))]) = false /\
+  prog_wf (with_cols [("AGE_AT_BASELINE", CAdd (CCol "AGE_FOLLOW_UP") (CDraw call_baseline));
+                      ("AGE_FOLLOW_UP", CAdd (CCol "AGE_AT_BASELINE") (CAbs (CDraw call_followup)))]) = false /\
+  prog_wf (with_loop {| lp_start := "AGE_AT_BASELINE"; lp_end := "AGE_FOLLOWUP"; lp_step := lp_step model_loop; lp_keep_start := true |}) = false /\
+  prog_wf (with_loop {| lp_start := "AGE_AT_BASELINE"; lp_end := "AGE_FOLLOW_UP";
+                        lp_step := CAdd CTime (CDraw (PStudy "distance_visit_mean", PStudy "distance_visit_std", SzN));
+                        lp_keep_start := true |}) = false /\
+  run_random Q Qplus Qabs Qlt_bool
+             (with_cols [("AGE_AT_BASELINE", CAdd (CCol "tau") (CDraw call_baseline));
+                         ("AGE_FOLLOW_UP", CAdd (CCol "AGE_BASELINE") (CAbs (CDraw call_followup)))]) 2 1 ex_tape = GCrash.
+Proof. repeat split; vm_compute; reflexivity. Qed.
